@@ -245,6 +245,10 @@ def run_check(prop, tier, replay=None):
     broken = []
     if not ob["ok"]:
         broken.append(("obligation", ob["broken"]))
+    if src_unrec:
+        # a source fact this property rests on was not recognised in today's source: whatever default the extractor wrote,
+        # the tie between model and code is not established for it
+        broken.append(("obligation", "source facts not recognised in the current source: " + ", ".join(sorted(src_unrec))))
     if mism:
         broken.append(("correspondence", "implementation and model disagree on %d of %d cases" % (len(mism), r["evaluated"])))
     if coq_errors:
